@@ -38,7 +38,7 @@ def run(ctx):
     ctx.rule("S7", "every FSM: all targets defined, all states reachable from reset, reset reachable from every state "
                    "(no trap), for every valuation of the Python-level conditions in the FSM", min_sites=2)
     ctx.rule("S9", "an empty element accepts: ~(source.valid formula) entails the sink.ready formula", min_sites=5)
-    ctx.rule("S11", "Gearbox level thresholds keep the occupancy register inside its declared range 0..max-1 (linear forms over "
+    ctx.rule("S11", "Gearbox level thresholds and the position counters of the converters keep their register inside its declared range 0..max-1 (linear forms over "
                     "the positive widths): an overflow wraps the level, source.valid drops while the consumer stalls", min_sites=6)
     ctx.rule("S12", "Gearbox thresholds cannot block both sides: sink.ready = level < Tr, source.valid = level >= Tv with "
                     "Tr >= Tv, from io_lcm >= 2*i_dw and io_lcm >= 2*o_dw (the two doubling statements); the level only "
@@ -227,6 +227,11 @@ def _gearbox(ctx):
     fx = fx_of(ctx, STREAM, "Gearbox")
     fail_closed(ctx, fx, "Gearbox")
     s_range(ctx, "S11", fx, "Gearbox", "level")
+    # position counters wrap explicitly at their last value and the declared width holds that value for every ratio: a counter that
+    # cannot reach ratio - 1 never completes a word -- the sink is never accepted again (livelock), whatever producer and consumer do
+    for cls_, reg_ in (("_UpConverter", "demux"), ("_DownConverter", "mux"), ("Pack", "demux"), ("Unpack", "mux"),
+                       ("Gearbox", "i_count"), ("Gearbox", "o_count")):
+        s_range(ctx, "S11", fx_of(ctx, STREAM, cls_), cls_, reg_)
     rd = fx.find(domain="comb", target="self.sink.ready")
     vd = fx.find(domain="comb", target="self.source.valid")
     ok = len(rd) == 1 and len(vd) == 1 and not rd[0].guards and not vd[0].guards
